@@ -25,10 +25,14 @@ ERRCODE = dict(AmbiguousLookupError=1, AssertionError=2, NotFoundLookupError=3)
 TOL = 1e-8
 
 
-def mkalg(name):
+def mkalg(name, iters=50):
+    """algorithm objects; GMRES gets max_iters=50 (>= 4x the largest operator): with the default max_iters=1000 every product with the lazy
+    inverse builds a 1000-step Arnoldi factorisation (about 10 s per right-hand side on a 4x4 operator); the default object is exercised once per run"""
     import cola
     from cola.linalg.algorithm_base import Algorithm
-    return dict(AAuto=cola.linalg.Auto, ALU=cola.linalg.LU, AChol=cola.linalg.Cholesky, ACG=cola.linalg.CG, AGMRES=cola.linalg.GMRES, AOther=Algorithm)[name]()
+    if name == "AGMRES":
+        return cola.linalg.GMRES(max_iters=iters)
+    return dict(AAuto=cola.linalg.Auto, ALU=cola.linalg.LU, AChol=cola.linalg.Cholesky, ACG=cola.linalg.CG, AOther=Algorithm)[name]()
 
 
 def findings():
@@ -186,11 +190,27 @@ def coq_case(t, io, o, flag_amb):
     n = T.shape(t)[0]
     k = io["k"]
     direct = o.get("ok") and "TIter" not in o["rty"]
-    lu = "[" + ";".join(f"({L.qmat(a)}, ({L.nlist(p)}, {L.qmat(Lm)}, {L.qmat(U)}))" for a, (p, Lm, U) in o["lu"] if a.shape[0] <= 16) + "]"
-    ch = "[" + ";".join(f"({L.qmat(a)}, {L.qmat(Lm)})" for a, Lm in o["chol"] if a.shape[0] <= 16) + "]"
+    # oracle tables handed to the model: the exact rational factors for the pivot order LAPACK chose (the float factors are
+    # checked to lie within 1e-10 of them); Cholesky factors only when they are exact (perfect squares)
+    num = True
+    lus, chs = [], []
+    for a, (p, Lm, U) in o["lu"]:
+        ex = L.lu_rational(a, p) if a.shape[0] == a.shape[1] and a.shape[0] <= 16 else None
+        if ex is None or not (np.abs(L.cq_to_np(ex[0]) - Lm).max() <= 1e-10 * max(1, np.abs(Lm).max()) and np.abs(L.cq_to_np(ex[1]) - U).max() <= 1e-10 * max(1, np.abs(U).max())):
+            num = False
+            continue
+        lus.append(f"({L.qmat(a)}, ({L.nlist(p)}, {L.qmat(ex[0])}, {L.qmat(ex[1])}))")
+    for a, Lm in o["chol"]:
+        if a.shape[0] <= 16 and L.chol_exact(a, Lm):
+            chs.append(f"({L.qmat(a)}, {L.qmat(Lm)})")
+        else:
+            num = False
+    lu = "[" + ";".join(lus) + "]"
+    ch = "[" + ";".join(chs) + "]"
+    o["num_in_coq"] = bool(direct and num)
     empty = "[]"
     return ("{| ce := " + L.coq_tree(t) + "; ca := " + L.coq_atree(t) + f"; calg := {o['alg']}; cn := {n}; ck := {k}; clu := {lu}; cchol := {ch}; "
-            f"cflag := {'true' if flag_amb else 'false'}; cerr := {0 if o.get('ok') else ERRCODE.get(o.get('err'), 9)}; crty := {o['rty'] if o.get('ok') else 'TOp 0'}; "
+            f"cnum := {'true' if num else 'false'}; cflag := {'true' if flag_amb else 'false'}; cerr := {0 if o.get('ok') else ERRCODE.get(o.get('err'), 9)}; crty := {o['rty'] if o.get('ok') else 'TOp 0'}; "
             f"cB := {L.qmat_g(io['B'])}; cBL := {L.qmat_g(io['BL'])}; "
             f"cdense := {L.qmat(o['dense']) if direct else empty}; cres := {L.qmat(o['res']) if direct else empty}; cresl := {L.qmat(o['resl']) if direct else empty}; "
             f"ctol2 := Q2Qc (1 # 10000000000000000) |}}")
@@ -380,6 +400,8 @@ def run(ctx):
         extra=dict(trees=len(cases), kind_histogram=kh, algorithm_histogram=alg_hist, outcome_histogram=err_hist, result_head_types=type_hist,
                    families={f: sum(1 for c in cases if c["fam"] == f) for f in ("inv", "psd", "psd_undecl", "uni")},
                    complex_trees=sum(1 for c in cases if c["cplx"]),
+                   values_compared_in_coq=sum(1 for (_, _, _, o) in meta if o.get("num_in_coq")),
+                   structure_only_in_coq=sum(1 for (_, _, _, o) in meta if o.get("ok") and not o.get("num_in_coq")),
                    lapack_lu_calls=n_lu, lapack_lu_exact=n_exact_lu, lapack_cholesky_calls=n_ch, lapack_cholesky_exact=n_exact_ch,
                    oracle_hypotheses_max_residual=oracle_resid, attributed_to_flags=attributed,
                    large_operator_branch=big_rows, informational=[f for f in fnd if f["flag"].endswith("_info")]))
